@@ -15,7 +15,7 @@ RULE = ('OPEN: AS {1,23455,23456,65535,65536,2^31,2^32-1} x hold times 0..65535 
         'boundaries x capability subsets/orders of {multiprotocol x 12 AFI/SAFI, route refresh 2/128/70, graceful restart, 4-octet AS, '
         'add-path for named families x send/receive/both, extended next hop 0..3 tuples, LLGR 0..3 tuples, cisco multisession, unknown '
         'codes, several add-path capabilities} x packaging (one parameter / one each / mixed / none, padded to 250..255 octets of optional parameters); NOTIFICATION all 256x256 code pairs x data 0..64; ROUTE-REFRESH '
-        'AFI {1,2,25,16388,65535} x SAFI 0..255 x both type codes; KEEPALIVE; distinct = distinct messages')
+        'AFI {1,2,25,16388,65535} x SAFI 0..255 x reserved octet {0,1,2,3,127,255} x both type codes; KEEPALIVE; session shards: under nine configurations the dictionary handed to handler.open_received for grammar-built peer OPENs equals Open.parse of the same octets decoded alone, and send_open agrees with the OPEN on the wire in version, hold time and identifier; distinct = distinct messages')
 ASSUMPTIONS = ['reference encoder vlib/refenc.py (RFC 4271, 5492, 4760, 2918, 4724, 6793, 7911, 7313, 8950, LLGR draft)',
                'expected capability dictionaries follow doc/source result shapes']
 SHARD_TIMEOUT = {'quick': 400, 'thorough': 2400}
